@@ -59,6 +59,7 @@ func projectConfig(sql string) (proj Ev, errs int, pan int) {
 		alias = append(alias, k+"<-"+squash(v))
 	}
 	sort.Strings(alias)
+	simple := append([]string{}, cfg.SimpleFields...) // "expr:alias" texts as the parser normalised them (exact, not squashed)
 	mr := ""
 	if cfg.MatchRecognize != nil {
 		mr = squash(fmt.Sprintf("%+v", *cfg.MatchRecognize))
@@ -68,7 +69,7 @@ func projectConfig(sql string) (proj Ev, errs int, pan int) {
 		"order": order, "joins": joins, "wtype": strings.ToLower(cfg.WindowConfig.Type), "wparams": params, "tsprop": cfg.WindowConfig.TsProp,
 		"unit": int64(cfg.WindowConfig.TimeUnit / time.Microsecond), "moo": int64(cfg.WindowConfig.MaxOutOfOrderness / time.Millisecond),
 		"al": int64(cfg.WindowConfig.AllowedLateness / time.Millisecond), "trigger": squash(cfg.WindowConfig.TriggerCondition),
-		"source": cfg.SourceAlias, "alias": alias, "mr": mr, "nsel": len(cfg.FieldOrder),
+		"source": cfg.SourceAlias, "alias": alias, "mr": mr, "nsel": len(cfg.FieldOrder), "simple": simple,
 	}, 0, 0
 }
 
